@@ -1,6 +1,6 @@
 (* C03 -- proofs about Model/ChunkVerify.v *)
 From Coq Require Import List NArith Bool Arith Lia.
-From DS Require Import Base.Bytes Base.Hash Model.ChunkVerify Model.VerifyIndex.
+From DS Require Import Base.Bytes Base.Hash Gen.Constants Model.ChunkVerify Model.VerifyIndex.
 Import ListNotations.
 
 (* ---------- induction principle for the nested type [stack] ---------- *)
@@ -289,7 +289,7 @@ Section Proofs.
   Qed.
 
   (* The protocol client checks against the REQUESTED id, whatever label the answer carries. *)
-  Lemma proto_answer_good i j body : rgood i (proto_answer H zdecomp i j body).
+  Lemma proto_answer_good i j fg body : rgood i (proto_answer H zdecomp i j fg body).
   Proof. apply ncfs_good. Qed.
 
   Lemma proto_get_good h inner i w : rgood i (fst (proto_get h inner i w)).
@@ -808,13 +808,13 @@ Section Proofs.
 
   (* ---------- the id carried in a casync CHUNK answer ---------- *)
 
-  Lemma proto_response_id_ignored i j body c :
-    proto_answer H zdecomp i j body = Ok c -> exists b, data_of c = Some b /\ H b = i.
+  Lemma proto_response_id_ignored i j fg body c :
+    proto_answer H zdecomp i j fg body = Ok c -> exists b, data_of c = Some b /\ H b = i.
   Proof. apply from_storage_verified. Qed.
 
   (* the client that believes the label checks the data against the label ... *)
-  Lemma proto_respid_checks_label i j body c :
-    proto_answer_respid H zdecomp i j body = Ok c -> exists b, data_of c = Some b /\ H b = j.
+  Lemma proto_respid_checks_label i j fg body c :
+    proto_answer_respid H zdecomp i j fg body = Ok c -> exists b, data_of c = Some b /\ H b = j.
   Proof. apply from_storage_verified. Qed.
 
   (* ... so in front of a server whose store derives ids from content it returns, without an
@@ -922,5 +922,25 @@ Section Proofs.
     destruct (leaf_get_missing k o i w F N) as (w' & E & F' & O). rewrite E.
     unfold raw_fetch. rewrite F', O, Hb. cbn [fst]. exists (new_chunk b). split; [reflexivity|].
     unfold ChunkVerify.data_of, ChunkVerify.chunk_data, new_chunk. cbn [c_data]. now rewrite Nb.
+  Qed.
+
+  (* The protocol client as a leaf: in front of ANY peer ([inner] is an arbitrary function of the
+     world, the answer in flight may be replaced by any flags / label / body) what it returns
+     without error yields bytes hashing to the requested id. *)
+  Theorem proto_client_verifies h (inner : getter) i w c w' :
+    proto_get h inner i w = (Ok c, w') -> exists b, data_of c = Some b /\ H b = i.
+  Proof.
+    intros E. pose proof (proto_get_good h inner i w) as G. rewrite E in G. cbn in G.
+    eapply verified_data, G.
+  Qed.
+
+  (* the client that trusts the flags hands out any plain body that is sent unflagged *)
+  Lemma proto_trust_flags_delivers_anything i j fg body :
+    N.land fg CaProtocolChunkCompressed = 0%N -> has_prefix zstd_magic body = false -> nonempty body = true ->
+    exists c, proto_answer_trust_flags H zdecomp i j fg body = Ok c /\ data_of c = Some body.
+  Proof.
+    intros F M N. unfold proto_answer_trust_flags. rewrite F, M. cbn [N.eqb andb negb].
+    exists (new_chunk body). split; [reflexivity|].
+    unfold ChunkVerify.data_of, ChunkVerify.chunk_data, new_chunk. cbn [c_data]. now rewrite N.
   Qed.
 End Proofs.
